@@ -226,6 +226,7 @@ MUTANTS = [
     ('C20', 'revert-unparseable-credentials', ('revert', 'd878e4c'), 'C20.a'),
     ('C20', 'revert-default-encoder', ('revert', '7be9dce'), 'C20.a'),
     ('C20', 'revert-fingerprint-separator', ('revert', '010b2e3'), 'C20.d'),
+    ('C20', 'revert-trust-order', ('revert', '0d245c4'), 'C20.f'),
 ]
 
 # behaviour-preserving edits: the check of the property must stay silent
